@@ -66,7 +66,8 @@ theorem extractLinenum_eq (n : Nat) (doc : List Char) (h : hasText doc = true) :
       rw [hasText_cons_space _ _ pyIsSpace_nl] at h
       simp only [if_true, splitNL_cons_nl]
       rw [ih (n + 1) h]
-      simp [blank]
+      have hb : blank ([] : List Char) = true := rfl
+      simp only [List.takeWhile_cons, hb, if_true, List.length_cons]
       omega
     · simp only [hc, if_false]
       rw [splitNL_cons_other c cs hc]
@@ -75,6 +76,7 @@ theorem extractLinenum_eq (n : Nat) (doc : List Char) (h : hasText doc = true) :
         simp only [hs, Bool.not_true, Bool.false_eq_true, if_false]
         rw [ih n h]
         simp only [splitNL, List.takeWhile_cons, blank_cons, hs, Bool.true_and]
+        split <;> simp
       · simp only [hs, Bool.not_false, if_true] <;> simp [blank_cons, hs]
 
 theorem all_splitNL (doc : List Char) : doc.all pyIsSpace = (splitNL doc).all blank := by
@@ -154,8 +156,18 @@ theorem blank_expandtabsFrom (col : Nat) (l : List Char) :
 
 /-! ## `cleandoc`: margin, pops -/
 
+theorem dropWhile_eq_nil_iff' (p : Char → Bool) (l : List Char) :
+    l.dropWhile p = [] ↔ l.all p = true := by
+  induction l with
+  | nil => simp
+  | cons c cs ih =>
+    by_cases h : p c = true
+    · simp [h, ih]
+    · simp [h]
+
 theorem lstrip_eq_nil_iff (l : List Char) : lstrip l = [] ↔ blank l = true := by
-  simp [lstrip, blank, List.dropWhile_eq_nil_iff]
+  simp only [lstrip, blank]
+  exact dropWhile_eq_nil_iff' _ _
 
 theorem lstrip_length_ne_zero_iff (l : List Char) : (lstrip l).length ≠ 0 ↔ blank l = false := by
   rw [Ne, List.length_eq_zero_iff, lstrip_eq_nil_iff]
@@ -163,7 +175,7 @@ theorem lstrip_length_ne_zero_iff (l : List Char) : (lstrip l).length ≠ 0 ↔ 
 
 theorem lstrip_length_le (l : List Char) : (lstrip l).length ≤ l.length := by
   simp only [lstrip]
-  exact List.length_dropWhile_le _ _
+  exact (List.dropWhile_sublist _).length_le
 
 theorem indentOf_lt (l : List Char) (h : blank l = false) : indentOf l < l.length := by
   have h1 := (lstrip_length_ne_zero_iff l).2 h
@@ -263,11 +275,11 @@ theorem lead_popTrailing (ls : List (List Char)) (h : ∃ x ∈ ls, x.isEmpty = 
       cases hp : popTrailing ls with
       | nil => exact absurd hp hne
       | cons r rs =>
-        simp only [lead, List.takeWhile_cons, hl, if_true, List.length_cons]
         have := ih h'
         rw [hp] at this
-        simp only [lead] at this
-        rw [this]
+        simp only [lead] at this ⊢
+        rw [List.takeWhile_cons_of_pos hl, List.takeWhile_cons_of_pos hl, List.length_cons,
+          List.length_cons, this]
     · unfold popTrailing
       cases hp : popTrailing ls with
       | nil => simp [lead, hl]
@@ -296,8 +308,8 @@ theorem dropWhile_eq_drop (p : List Char → Bool) (ls : List (List Char)) :
   | nil => simp
   | cons l ls ih =>
     by_cases h : p l
-    · simp [List.dropWhile_cons, List.takeWhile_cons, h, ih]
-    · simp [List.dropWhile_cons, List.takeWhile_cons, h]
+    · simp [h, ih]
+    · simp [h]
 
 theorem cleandocLines_eq (doc : List Char) :
     cleandocLines doc = (popTrailing (processed doc)).drop (dropped doc) := by
@@ -331,7 +343,7 @@ theorem cleandocLines_length_le (doc : List Char) :
     (popTrailing_prefix (processed doc)).length_le
   have h2 : dropped doc ≤ (popTrailing (processed doc)).length := by
     simp only [dropped]
-    exact List.length_takeWhile_le _ _
+    exact (List.takeWhile_sublist _).length_le
   omega
 
 /-- leading empties after the margin cut = leading blank lines before it, provided no leading
@@ -346,14 +358,14 @@ theorem lead_dedent (k : Nat) (et : List (List Char))
   | nil => simp at h3
   | cons l ls ih =>
     by_cases hb : blank l = true
-    · have hlen : l.length ≤ k := h1 l (by simp [List.takeWhile_cons, hb])
+    · have hlen : l.length ≤ k := h1 l (by simp [hb])
       have hd : (l.drop k).isEmpty = true := by simp [List.drop_eq_nil_iff, hlen]
       have h3' : ∃ x ∈ ls, blank x = false := by
         obtain ⟨x, hx, hxb⟩ := h3
         rcases List.mem_cons.1 hx with rfl | hx
         · rw [hb] at hxb; cases hxb
         · exact ⟨x, hx, hxb⟩
-      obtain ⟨a, b⟩ := ih (fun x hx => h1 x (by simp [List.takeWhile_cons, hb, hx]))
+      obtain ⟨a, b⟩ := ih (fun x hx => h1 x (by simp [hb, hx]))
         (fun x hx => h2 x (List.mem_cons_of_mem _ hx)) h3'
       refine ⟨?_, ?_⟩
       · simp only [lead, List.map_cons, List.takeWhile_cons, hd, hb, if_true, List.length_cons]
@@ -367,7 +379,7 @@ theorem lead_dedent (k : Nat) (et : List (List Char))
       have hd : (l.drop k).isEmpty = false := by
         simp [List.drop_eq_nil_iff]; omega
       refine ⟨?_, ⟨l.drop k, by simp, hd⟩⟩
-      simp [lead, List.takeWhile_cons, hd, hb']
+      simp [lead, hd, hb']
 
 /-- `cleandoc` removes exactly the leading whitespace-only lines, under the layout hypothesis. -/
 theorem dropped_eq (doc : List Char) (hl : noOverIndent doc = true) (ht : hasText doc = true) :
@@ -405,10 +417,9 @@ theorem dropped_eq (doc : List Char) (hl : noOverIndent doc = true) (ht : hasTex
     congr 1
     rw [List.takeWhile_map]
     simp only [List.length_map]
-    congr 1
-    apply List.takeWhile_congr
-    intro y
-    simp [blank_expandtabsFrom]
+    have hf : (blank ∘ expandtabsFrom 0) = blank := by
+      funext y; simp [blank_expandtabsFrom]
+    rw [hf]
   · -- text on the opening line: nothing is dropped
     have hb' : blank (splitNL1 doc).1 = false := by simpa using hb
     have hhead : (lstrip (expandtabsFrom 0 (splitNL1 doc).1)).isEmpty = false := by
@@ -424,7 +435,7 @@ theorem dropped_eq (doc : List Char) (hl : noOverIndent doc = true) (ht : hasTex
     have hlp := lead_popTrailing _ hex
     simp only [lead] at hlp
     rw [hlp]
-    simp [List.takeWhile_cons, hhead, splitNL, hb']
+    simp [hhead, splitNL, hb']
 
 /-! ## Property theorems -/
 
@@ -448,5 +459,442 @@ theorem docstring_lineno_correct_counterexample :
 
 example : noOverIndent "\n    \n\n    Text `x`.\n    ".toList = true ∧
     hasText "\n    \n\n    Text `x`.\n    ".toList = true := by decide
+
+/-! ### offsets: from the parser's number to `lineno_offset`
+
+`i` = index (0-based) of the block's first line in the cleaned docstring, `j` = lines between the
+block's first line and the construct. -/
+
+theorem reportErrorsOffset_of_nonneg (i : Int) (h : 0 ≤ i) : reportErrorsOffset (some i) = i := by
+  have : i + 1 ≠ 0 := by omega
+  simp [reportErrorsOffset, parseErrorLinenum, pyOr, this]
+
+/-- `ParseError(…, token.startline)` → `linenum()` adds 1 → `reportErrors` subtracts it again. -/
+theorem offset_correct_epytext_error (i j : Int) (h : 0 ≤ i) :
+    constructOffset .epytext .markupError i j = i := by
+  simp [constructOffset, constructOffsetB, reportErrorsOffset_of_nonneg i h]
+
+theorem offset_correct_epytext_field (i j : Int) :
+    constructOffset .epytext .unknownField i j = i ∧ constructOffset .epytext .badParam i j = i := by
+  simp [constructOffset, constructOffsetB]
+
+/-- epytext cross-reference: `get_lineno` returns the paragraph token's `startline` — also when it
+is 0 and therefore falsy, because no ancestor carries a line and the walk ends in 0. -/
+theorem offset_correct_epytext_xref (i j : Int) : constructOffset .epytext .badXref i j = i := by
+  by_cases h : i = 0
+  · subst h; simp [constructOffset, constructOffsetB, getLineno, truthy, firstParentLineno]
+  · simp [constructOffset, constructOffsetB, getLineno, truthy, h]
+
+/-- reStructuredText field: `_SplitFieldsTranslator` stores `node.line - 1`. -/
+theorem offset_correct_rst_field (i j : Int) :
+    constructOffset .rst .unknownField i j = i ∧ constructOffset .rst .badParam i j = i := by
+  simp [constructOffset, constructOffsetB, docutilsBase]
+
+/-- reStructuredText cross-reference: paragraph line − 1 + newlines before the reference = the
+line of the reference itself (`i + j`); the paragraph's first line when `j = 0`. -/
+theorem offset_correct_rst_xref (i j : Int) (h : 0 ≤ i) :
+    constructOffset .rst .badXref i j = i + j := by
+  have : i + 1 ≠ 0 := by omega
+  simp [constructOffset, constructOffsetB, docutilsBase, getLineno, truthy, firstParentLineno, this]
+
+/-- reStructuredText markup error: `_EpydocReader.report` stores docutils' 1-based line in a
+`ParseError` whose line is 0-based; the offset is one too large for **every** block.
+(google and numpy go through the same reader.) -/
+theorem offset_rst_markup_error_plus_one (fmt : Fmt) (hf : fmt ≠ .epytext) (i j : Int) (h : 0 ≤ i) :
+    constructOffset fmt .markupError i j = i + 1 := by
+  have h1 : reportErrorsOffset (some (i + 1)) = i + 1 := reportErrorsOffset_of_nonneg (i + 1) (by omega)
+  cases fmt <;> simp_all [constructOffset, constructOffsetB, docutilsBase]
+
+/-! ### `Documentable.report` on an object that has a docstring -/
+
+theorem report_docstring (o : Obj) (sec : Sec) (off : Int) (hs : sec = .docstring ∨ sec = .xref)
+    (h : o.docstringLineno ≠ 0) : report o sec off = .num (o.docstringLineno + off) := by
+  simp [report, hs, pyOr, h]
+
+theorem secOf_doc (c : Cls) : secOf c = .docstring ∨ secOf c = .xref := by
+  cases c <;> simp [secOf]
+
+theorem docObj_lineno_ne (sl : Nat) (doc : List Char) (ln : Int) (im : Bool) (hs : 0 < sl) :
+    (docObj sl doc ln im).docstringLineno ≠ 0 := by
+  have := extractLinenum_ge sl doc
+  simp only [docObj]
+  omega
+
+/-- the reported line in closed form, for every format, class and layout -/
+theorem reportedLineB_eq (base : Int) (fmt : Fmt) (sl : Nat) (doc : List Char) (ln : Int) (im : Bool)
+    (c : Construct) (hs : 0 < sl) :
+    reportedLineB base fmt sl doc ln im c =
+      .num ((extractLinenum sl doc : Nat) +
+        constructOffsetB base fmt c.cls ((c.raw : Int) - (dropped doc : Nat)) c.j) := by
+  simp only [reportedLineB]
+  rw [report_docstring _ _ _ (secOf_doc c.cls) (docObj_lineno_ne sl doc ln im hs)]
+  rfl
+
+/-! ### **reported_line_correct**, one theorem per construct class
+
+Full statement wanted: for every literal with text, the reported line is `sl + raw`, the physical
+line of the first line of the block holding the problem.  It is false today for every class on
+literals with an over-indented leading blank line (`reported_line_correct_counterexample`), hence
+the layout hypothesis `noOverIndent`; and false for reStructuredText markup errors on every literal
+(`reported_line_correct_rst_error_counterexample`).
+
+`hr : dropped doc ≤ raw` says the block is not one of the blank lines `cleandoc` removed. -/
+
+theorem reported_line_correct_epytext_error_partial (sl : Nat) (doc : List Char) (ln : Int)
+    (im : Bool) (raw j : Nat) (hs : 0 < sl) (hl : noOverIndent doc = true) (ht : hasText doc = true)
+    (hr : dropped doc ≤ raw) :
+    reportedLine .epytext sl doc ln im ⟨.markupError, raw, j⟩ = .num ((sl : Int) + raw) := by
+  simp only [reportedLine]
+  rw [reportedLineB_eq _ _ _ _ _ _ _ hs, docstring_lineno_correct_partial sl doc hl ht]
+  have := offset_correct_epytext_error ((raw : Int) - (dropped doc : Nat)) j (by omega)
+  simp only [constructOffset] at this
+  simp only [this]
+  congr 1
+  push_cast
+  omega
+
+/-- unknown field and documented-parameter-does-not-exist, epytext and reStructuredText -/
+theorem reported_line_correct_field_partial (fmt : Fmt) (cls : Cls) (sl : Nat) (doc : List Char)
+    (ln : Int) (im : Bool) (raw j : Nat) (hf : fmt = .epytext ∨ fmt = .rst)
+    (hc : cls = .unknownField ∨ cls = .badParam) (hs : 0 < sl)
+    (hl : noOverIndent doc = true) (ht : hasText doc = true) :
+    reportedLine fmt sl doc ln im ⟨cls, raw, j⟩ = .num ((sl : Int) + raw) := by
+  simp only [reportedLine]
+  rw [reportedLineB_eq _ _ _ _ _ _ _ hs, docstring_lineno_correct_partial sl doc hl ht]
+  have h : constructOffsetB docutilsBase fmt cls ((raw : Int) - (dropped doc : Nat)) j
+      = (raw : Int) - (dropped doc : Nat) := by
+    rcases hf with rfl | rfl <;> rcases hc with rfl | rfl <;>
+      simp [constructOffsetB, docutilsBase]
+  simp only [h]
+  congr 1
+  push_cast
+  omega
+
+theorem reported_line_correct_epytext_xref_partial (sl : Nat) (doc : List Char) (ln : Int)
+    (im : Bool) (raw j : Nat) (hs : 0 < sl) (hl : noOverIndent doc = true) (ht : hasText doc = true) :
+    reportedLine .epytext sl doc ln im ⟨.badXref, raw, j⟩ = .num ((sl : Int) + raw) := by
+  simp only [reportedLine]
+  rw [reportedLineB_eq _ _ _ _ _ _ _ hs, docstring_lineno_correct_partial sl doc hl ht]
+  have := offset_correct_epytext_xref ((raw : Int) - (dropped doc : Nat)) j
+  simp only [constructOffset] at this
+  simp only [this]
+  congr 1
+  push_cast
+  omega
+
+/-- reStructuredText cross-reference: the line of the reference itself, `sl + raw + j`
+(= the first line of its paragraph / item / field when the reference is on that line). -/
+theorem reported_line_correct_rst_xref_partial (sl : Nat) (doc : List Char) (ln : Int)
+    (im : Bool) (raw j : Nat) (hs : 0 < sl) (hl : noOverIndent doc = true) (ht : hasText doc = true)
+    (hr : dropped doc ≤ raw) :
+    reportedLine .rst sl doc ln im ⟨.badXref, raw, j⟩ = .num ((sl : Int) + raw + j) := by
+  simp only [reportedLine]
+  rw [reportedLineB_eq _ _ _ _ _ _ _ hs, docstring_lineno_correct_partial sl doc hl ht]
+  have := offset_correct_rst_xref ((raw : Int) - (dropped doc : Nat)) j (by omega)
+  simp only [constructOffset] at this
+  simp only [this]
+  congr 1
+  push_cast
+  omega
+
+/-- reStructuredText markup error: right **only if docutils counted lines from 0** (`base = 0`),
+which it does not (`docutilsBase = 1`; the `reports` correspondence stream confirms the 1). -/
+theorem reported_line_correct_rst_error_partial (base : Int) (hb : base = 0) (sl : Nat)
+    (doc : List Char) (ln : Int) (im : Bool) (raw j : Nat) (hs : 0 < sl)
+    (hl : noOverIndent doc = true) (ht : hasText doc = true) (hr : dropped doc ≤ raw) :
+    reportedLineB base .rst sl doc ln im ⟨.markupError, raw, j⟩ = .num ((sl : Int) + raw) := by
+  subst hb
+  rw [reportedLineB_eq _ _ _ _ _ _ _ hs, docstring_lineno_correct_partial sl doc hl ht]
+  have : constructOffsetB 0 .rst .markupError ((raw : Int) - (dropped doc : Nat)) j
+      = (raw : Int) - (dropped doc : Nat) := by
+    simp [constructOffsetB, reportErrorsOffset_of_nonneg ((raw : Int) - (dropped doc : Nat)) (by omega)]
+  simp only [this]
+  congr 1
+  push_cast
+  omega
+
+/-- with the real convention the line is one too high on every well laid out literal -/
+theorem reported_line_rst_error_plus_one (sl : Nat) (doc : List Char) (ln : Int) (im : Bool)
+    (raw j : Nat) (hs : 0 < sl) (hl : noOverIndent doc = true) (ht : hasText doc = true)
+    (hr : dropped doc ≤ raw) :
+    reportedLine .rst sl doc ln im ⟨.markupError, raw, j⟩ = .num ((sl : Int) + raw + 1) := by
+  simp only [reportedLine]
+  rw [reportedLineB_eq _ _ _ _ _ _ _ hs, docstring_lineno_correct_partial sl doc hl ht]
+  have := offset_rst_markup_error_plus_one .rst (by decide) ((raw : Int) - (dropped doc : Nat)) j (by omega)
+  simp only [constructOffset] at this
+  simp only [this]
+  congr 1
+  push_cast
+  omega
+
+/-- `def f():⏎    """⏎    Text *oops⏎    """`: literal on line 2, paragraph on line 3 (raw 1),
+reported on line 4. -/
+theorem reported_line_correct_rst_error_counterexample :
+    let doc := "\n    Text *oops\n    ".toList
+    noOverIndent doc = true ∧ hasText doc = true ∧
+      reportedLine .rst 2 doc 1 false ⟨.markupError, 1, 0⟩ = .num 4 ∧
+      reportedLine .rst 2 doc 1 false ⟨.badXref, 1, 0⟩ = .num 3 := by decide
+
+/-- over-indented leading blank line: every class is one line too high (epytext cross-reference and
+unknown field planted on raw line 2 = physical line 4, reported on line 5). -/
+theorem reported_line_correct_counterexample :
+    let doc := "\n        \n    Text L{x}.\n    @foo: bar\n    ".toList
+    noOverIndent doc = false ∧
+      reportedLine .epytext 2 doc 1 false ⟨.badXref, 2, 0⟩ = .num 5 ∧
+      reportedLine .epytext 2 doc 1 false ⟨.unknownField, 3, 0⟩ = .num 6 := by decide
+
+-- non-vacuity of the hypotheses of the `_partial` theorems
+example : let doc := "  Summary `x`.\n\n    - item *oops\n      more\n\n    :foo: bar\n    ".toList
+    noOverIndent doc = true ∧ hasText doc = true ∧ dropped doc ≤ 2 ∧
+      reportedLine .rst 7 doc 6 false ⟨.unknownField, 5, 0⟩ = .num 12 := by decide
+
+/-! ### **shift** -/
+
+/-- Moving the definition down by `k` lines (string literal on `sl + k`, whatever happens to the
+object's own `linenumber`) moves every reported line by exactly `k` — every format, class, layout. -/
+theorem shift (fmt : Fmt) (sl k : Nat) (doc : List Char) (ln ln' : Int) (im : Bool) (c : Construct)
+    (hs : 0 < sl) :
+    ∃ n, reportedLine fmt sl doc ln im c = .num n ∧
+      reportedLine fmt (sl + k) doc ln' im c = .num (n + k) := by
+  refine ⟨_, reportedLineB_eq _ _ _ _ _ _ _ hs, ?_⟩
+  simp only [reportedLine]
+  rw [reportedLineB_eq _ _ _ _ _ _ _ (by omega : 0 < sl + k), extractLinenum_shift]
+  congr 1
+  push_cast
+  omega
+
+/-- the same at the level of `Documentable.report`, for any offset a parser produced -/
+theorem report_shift (o : Obj) (sec : Sec) (off k : Int) (hs : sec = .docstring ∨ sec = .xref)
+    (h : o.docstringLineno ≠ 0) (hk : o.docstringLineno + k ≠ 0) :
+    ∃ n, report o sec off = .num n ∧
+      report { o with docstringLineno := o.docstringLineno + k, linenumber := o.linenumber + k } sec off
+        = .num (n + k) := by
+  refine ⟨_, report_docstring o sec off hs h, ?_⟩
+  rw [report_docstring _ _ _ hs (by simpa using hk)]
+  simp only [Line.num.injEq]
+  omega
+
+example : ∃ n, reportedLine .epytext 3 "\n  T L{x}".toList 2 false ⟨.badXref, 1, 0⟩ = .num n ∧
+    reportedLine .epytext (3 + 5) "\n  T L{x}".toList 7 false ⟨.badXref, 1, 0⟩ = .num (n + 5) :=
+  shift _ _ _ _ _ _ _ _ (by decide)
+
+/-! ### **converted_formats_in_range** (google, numpy)
+
+pydoctor adds the line index *in the text napoleon produced* to `docstring_lineno`; nothing maps it
+back or clamps it.  Full statement wanted: for every offset the parsers can produce the reported
+line lies on a line of the literal.  What holds: it does when the offset is smaller than the
+number of lines of the cleaned docstring — an assumption about napoleon (that the converted text
+has no construct further down than the original is long) which is false as soon as a section
+expands (`:param x:` + `:type x:` per documented parameter). -/
+theorem converted_formats_in_range_partial (sl : Nat) (doc : List Char) (ln : Int) (im : Bool)
+    (sec : Sec) (off : Int) (hsec : sec = .docstring ∨ sec = .xref) (hs : 0 < sl)
+    (hl : noOverIndent doc = true) (ht : hasText doc = true)
+    (h0 : 0 ≤ off) (hoff : off < (cleandocLines doc).length) :
+    inSpan sl doc (report (docObj sl doc ln im) sec off) = true := by
+  rw [report_docstring _ _ _ hsec (docObj_lineno_ne sl doc ln im hs)]
+  have h1 := cleandocLines_length_le doc
+  rw [splitNL_length] at h1
+  simp only [inSpan, docObj, docstring_lineno_correct_partial sl doc hl ht, Bool.and_eq_true,
+    decide_eq_true_eq]
+  constructor
+  · push_cast; omega
+  · push_cast; omega
+
+/-- numpy docstring on lines 2–7 (`Parameters` section with two typed parameters): the converted
+text puts `:type b:` on its line 6; reported line 9 is past the closing quotes. -/
+theorem converted_formats_in_range_counterexample :
+    let doc := "\nParameters\n----------\na: int\nb: int\n".toList
+    noOverIndent doc = true ∧ hasText doc = true ∧ (cleandocLines doc).length = 4 ∧
+      report (docObj 2 doc 1 false) .docstring 6 = .num 9 ∧
+      inSpan 2 doc (report (docObj 2 doc 1 false) .docstring 6) = false := by decide
+
+example : inSpan 2 "\nParameters\n----------\na: int\nb: int\n".toList
+    (report (docObj 2 "\nParameters\n----------\na: int\nb: int\n".toList 1 false) .docstring 3) = true := by
+  decide
+
+/-! ### **every_report_counted**, **exit_status** -/
+
+theorem msg_violations (s : Sys) (sec m : Nat) (th top : Int) (once : Bool) :
+    (s.msg sec m th top once).violations =
+      s.violations + (if once && s.onceMsgs.contains (sec, m) then 0 else if th < 0 then 1 else 0) := by
+  unfold Sys.msg
+  by_cases h1 : (once && s.onceMsgs.contains (sec, m)) = true
+  · rw [if_pos h1, if_pos h1]; simp
+  · rw [if_neg h1, if_neg h1]
+    by_cases h2 : th < 0 <;> simp [h2]
+
+theorem msg_parseErrors (s : Sys) (sec m : Nat) (th top : Int) (once : Bool) :
+    (s.msg sec m th top once).parseErrors = s.parseErrors := by
+  unfold Sys.msg
+  by_cases h1 : (once && s.onceMsgs.contains (sec, m)) = true
+  · rw [if_pos h1]
+  · rw [if_neg h1]
+
+/-- **every_report_counted**: each `Documentable.report` (default threshold) adds exactly one to
+`System.violations`, whatever the verbosity. -/
+theorem every_report_counted (s : Sys) (sec m : Nat) :
+    (s.report sec m).violations = s.violations + 1 := by
+  simp [Sys.report, msg_violations]
+
+/-- a message with a negative threshold that got printed was counted -/
+theorem printed_is_counted (s : Sys) (sec m : Nat) (th top : Int) (once : Bool) (hth : th < 0)
+    (hp : (s.msg sec m th top once).printed = s.printed + 1) :
+    (s.msg sec m th top once).violations = s.violations + 1 := by
+  rw [msg_violations]
+  by_cases h1 : (once && s.onceMsgs.contains (sec, m)) = true
+  · exfalso
+    unfold Sys.msg at hp
+    rw [if_pos h1] at hp
+    omega
+  · rw [if_neg h1]; simp [hth]
+
+theorem reportN_violations (s : Sys) (sec : Nat) (ms : List Nat) :
+    (s.reportN sec ms).violations = s.violations + ms.length := by
+  induction ms generalizing s with
+  | nil => simp [Sys.reportN]
+  | cons m ms ih => simp [Sys.reportN, ih, every_report_counted]; omega
+
+theorem reportN_parseErrors (s : Sys) (sec : Nat) (ms : List Nat) :
+    (s.reportN sec ms).parseErrors = s.parseErrors := by
+  induction ms generalizing s with
+  | nil => simp [Sys.reportN]
+  | cons m ms ih => simp [Sys.reportN, ih, Sys.report, msg_parseErrors]
+
+theorem any_touch (k : Nat) (pe : List (Nat × List Nat)) :
+    (touch k pe).any (fun p => !p.2.isEmpty) = pe.any (fun p => !p.2.isEmpty) := by
+  unfold touch
+  cases lookup k pe <;> simp
+
+theorem lookup_any (k : Nat) (pe : List (Nat × List Nat)) (v : List Nat)
+    (h : lookup k pe = some v) (hv : v.isEmpty = false) : pe.any (fun p => !p.2.isEmpty) = true := by
+  induction pe with
+  | nil => simp [lookup] at h
+  | cons p ps ih =>
+    obtain ⟨k', v'⟩ := p
+    simp only [lookup] at h
+    by_cases hk : k' = k
+    · simp only [hk, if_true, Option.some.injEq] at h
+      subst h
+      simp [hv]
+    · simp only [hk, if_false] at h
+      simp [ih h]
+
+/-- system states a run can reach: start, messages, `reportErrors` -/
+inductive Reachable : Sys → Prop
+  | init (v : Int) : Reachable { verbosity := v }
+  | msg {s} (sec m : Nat) (th top : Int) (once : Bool) : Reachable s → Reachable (s.msg sec m th top once)
+  | reportErrors {s} (sec obj : Nat) (errs : List Nat) : Reachable s → Reachable (s.reportErrors sec obj errs)
+
+/-- whenever some object is recorded in `parse_errors`, at least one violation was counted -/
+theorem reachable_parse_errors_counted (s : Sys) (h : Reachable s) :
+    anyParseErrors s = true → 0 < s.violations := by
+  induction h with
+  | init v => simp [anyParseErrors]
+  | msg sec m th top once _ ih =>
+    intro hp
+    simp only [anyParseErrors, msg_parseErrors] at hp
+    have := ih hp
+    rw [msg_violations]; omega
+  | @reportErrors s sec obj errs _ ih =>
+    intro hp
+    unfold Sys.reportErrors at hp ⊢
+    by_cases he : errs.isEmpty = true
+    · simp only [he, if_true] at hp ⊢; exact ih hp
+    · simp only [he, Bool.false_eq_true, if_false] at hp ⊢
+      split
+      · rename_i hc
+        simp only [hc, if_true, anyParseErrors, any_touch] at hp
+        exact ih hp
+      · rw [reportN_violations]
+        have : 0 < errs.length := by
+          cases errs with
+          | nil => simp at he
+          | cons _ _ => simp
+        simp only
+        omega
+
+theorem summary_violations (s : Sys) (n : Nat) : (s.summary n).violations = s.violations + n := by
+  induction n generalizing s with
+  | zero => simp [Sys.summary]
+  | succ n ih => simp [Sys.summary, ih, msg_violations]; omega
+
+/-- `driver.main`, for **any** system state: the summary lines are themselves counted, so with
+`-W` a non-empty `parse_errors['docstring']` alone already gives 3. -/
+theorem exit_status_raw (s : Sys) (w : Bool) :
+    let dse := ((lookup secDocstring (touch secDocstring s.parseErrors)).getD [])
+    ((mainTail s w).1 = 3 ↔ (w = true ∧ (0 < s.violations ∨ dse.isEmpty = false))) ∧
+    ((mainTail s w).1 = 2 ↔ (¬(w = true ∧ (0 < s.violations ∨ dse.isEmpty = false)) ∧ anyParseErrors s = true)) ∧
+    ((mainTail s w).1 = 0 ↔ (¬(w = true ∧ 0 < s.violations) ∧ anyParseErrors s = false)) := by
+  intro dse
+  have hany : anyParseErrors { s with parseErrors := touch secDocstring s.parseErrors } = anyParseErrors s := by
+    simp [anyParseErrors, any_touch]
+  have hdse : dse.isEmpty = false → anyParseErrors s = true := by
+    intro hd
+    rw [← hany]
+    simp only [anyParseErrors]
+    cases hl : lookup secDocstring (touch secDocstring s.parseErrors) with
+    | none => simp [dse, hl] at hd
+    | some v =>
+      have : dse = v := by simp [dse, hl]
+      exact lookup_any _ _ v hl (this ▸ hd)
+  unfold mainTail
+  simp only [hany]
+  by_cases hd : dse.isEmpty = true
+  · have hd' : ((lookup secDocstring (touch secDocstring s.parseErrors)).getD []).isEmpty = true := hd
+    simp only [hd', Bool.not_true, Bool.false_eq_true, if_false]
+    by_cases ha : anyParseErrors s = true <;> by_cases hw : w = true <;>
+      by_cases hv : s.violations = 0 <;> simp [ha, hw, hv, hd] <;> omega
+  · have hd1 : dse.isEmpty = false := by simpa using hd
+    have hd' : ((lookup secDocstring (touch secDocstring s.parseErrors)).getD []).isEmpty = false := hd1
+    have ha := hdse hd1
+    simp only [hd', Bool.not_false, if_true, summary_violations]
+    by_cases hw : w = true <;> simp [ha, hw, hd1] <;> omega
+
+/-- **exit_status** for the states a run reaches: with `--warnings-as-errors` the status is 3
+exactly when at least one problem was counted; otherwise it is 2 exactly when some docstring or
+displayed expression could not be parsed, and 0 otherwise.  (The summary printed by `main` is
+counted too; it cannot change the equivalence because `parse_errors` is only filled together
+with a counted report.) -/
+theorem exit_status (s : Sys) (w : Bool) (h : Reachable s) :
+    ((mainTail s w).1 = 3 ↔ (w = true ∧ 0 < s.violations)) ∧
+    ((mainTail s w).1 = 2 ↔ (¬(w = true ∧ 0 < s.violations) ∧ anyParseErrors s = true)) ∧
+    ((mainTail s w).1 = 0 ↔ (¬(w = true ∧ 0 < s.violations) ∧ anyParseErrors s = false)) := by
+  have inv := reachable_parse_errors_counted s h
+  obtain ⟨h3, h2, h0⟩ := exit_status_raw s w
+  have key : ((lookup secDocstring (touch secDocstring s.parseErrors)).getD []).isEmpty = false →
+      0 < s.violations := by
+    intro hd
+    apply inv
+    have hany : anyParseErrors { s with parseErrors := touch secDocstring s.parseErrors } = anyParseErrors s := by
+      simp [anyParseErrors, any_touch]
+    rw [← hany]
+    cases hl : lookup secDocstring (touch secDocstring s.parseErrors) with
+    | none => simp [hl] at hd
+    | some v => exact lookup_any _ _ v hl (by simpa [hl] using hd)
+  refine ⟨?_, ?_, h0⟩
+  · rw [h3]
+    constructor
+    · rintro ⟨hw, hv | hd⟩
+      · exact ⟨hw, hv⟩
+      · exact ⟨hw, key hd⟩
+    · rintro ⟨hw, hv⟩; exact ⟨hw, Or.inl hv⟩
+  · rw [h2]
+    constructor
+    · rintro ⟨hn, ha⟩
+      exact ⟨fun ⟨hw, hv⟩ => hn ⟨hw, Or.inl hv⟩, ha⟩
+    · rintro ⟨hn, ha⟩
+      refine ⟨?_, ha⟩
+      rintro ⟨hw, hv | hd⟩
+      · exact hn ⟨hw, hv⟩
+      · exact hn ⟨hw, key hd⟩
+
+-- non-vacuity: a reachable state with a parse error; the three outcomes
+example : Reachable (({ verbosity := 0 } : Sys).reportErrors 0 7 [1, 2]) :=
+  .reportErrors 0 7 [1, 2] (.init 0)
+example : (mainTail (({ verbosity := 0 } : Sys).reportErrors 0 7 [1, 2]) true).1 = 3 ∧
+    (mainTail (({ verbosity := 0 } : Sys).reportErrors 0 7 [1, 2]) false).1 = 2 ∧
+    (mainTail (({ verbosity := 0 } : Sys).report 3 1) false).1 = 0 ∧
+    (mainTail (({ verbosity := 0 } : Sys).report 3 1) true).1 = 3 ∧
+    (mainTail ({ verbosity := 0 } : Sys) true).1 = 0 := by decide
 
 end Lineno
